@@ -653,7 +653,9 @@ func replyOfflineTopicGetDesc(sess *Session, msg *ClientComMessage) {
 		} else if strings.HasPrefix(topic, "p2p") {
 			// User specified as p2pXXXYYY
 			uid1, uid2, _ := types.ParseP2P(topic)
-			if uid1 == asUid {
+			if uid1 == uid2 {
+				// A p2p topic with oneself does not exist: uid stays zero, reported as malformed below.
+			} else if uid1 == asUid {
 				uid = uid2
 			} else if uid2 == asUid {
 				uid = uid1
